@@ -287,7 +287,7 @@ class URLInfo(object):
     @property
     def query_map(self):
         if self._query_map is None:
-            self._query_map = query_to_map(self.query)
+            self._query_map = query_to_map(self.query or '')
         return self._query_map
 
     @property
